@@ -80,6 +80,10 @@ structure Obs where
                                   -- validation pass: the chain's root is in the listed ca / signingAuthority store)
   expiryFailed : Bool             -- the `expiry` result carries an error
   authTsFailed : Bool             -- the `authenticTimestamp` result carries an error
+  tsaRevocationArgsOk : Bool      -- every call to the timestamping revocation validator was for the token's TSA
+                                  -- chain and carried NO authentic signing time (revocation is judged as of now)
+  signingRevocationArgsOk : Bool  -- every call to the code-signing revocation validator was for the envelope's chain
+                                  -- and carried the signing time iff the scheme is signingAuthority
   deriving DecidableEq, Repr, FromJson, ToJson
 
 /-! ### the code, function by function (`true` = the function returns an error) -/
@@ -164,7 +168,10 @@ def verifyAuthenticTimestamp (i : Input) : Bool :=
   | .signingAuthority => saLoop i.signingTime i.chain
 
 def run (i : Input) : Obs :=
-  { evaluated := true, expiryFailed := verifyExpiry i.now i.expiry, authTsFailed := verifyAuthenticTimestamp i }
+  { evaluated := true, expiryFailed := verifyExpiry i.now i.expiry, authTsFailed := verifyAuthenticTimestamp i,
+    -- `ValidateContextOptions{CertChain: tsaCertChain}` in step 5; `verifyRevocation` sets
+    -- `AuthenticSigningTime` only under signingAuthority
+    tsaRevocationArgsOk := true, signingRevocationArgsOk := true }
 
 /-! ### the property over observables (declarative: no loops, no order of checks) -/
 
@@ -202,6 +209,8 @@ def clauses (i : Input) (o : Obs) : Clauses :=
   let x509 := i.scheme == .x509
   let passed := !o.authTsFailed
   [ ("both_validations_evaluated", o.evaluated),
+    ("tsa_chain_revocation_checked_as_of_now_on_the_tsa_chain", o.tsaRevocationArgsOk),
+    ("signing_chain_revocation_gets_signing_time_only_for_signing_authority", o.signingRevocationArgsOk),
     ("expired_signature_fails_expiry", !(expired i) || o.expiryFailed),
     ("unexpired_signature_passes_expiry", expired i || !o.expiryFailed),
     ("signing_authority_passes_iff_chain_valid_at_authentic_signing_time",
